@@ -266,6 +266,8 @@ def backtrack_terms(g, rnd):
     if len(cands) >= 2 and not any(t.kind == 'r' for t in g.terms):
         ja, jb = rnd.sample(cands, 2); a, b = g.terms[ja], g.terms[jb]
         g.terms[ja] = gg.Term('r', '%s(%s%s)?' % (a.text, b.text, a.text), a.prec, a.assoc, None, a.typed)
+        # helper functors chosen for a char term's value type (_eK picking the term) no longer fit a string-view lexeme: plain logging functors there
+        g.rules = [gg.Rule(r.lhs, r.rhs, r.prec, 'f' if (r.ftor[0] == 'e' and r.ftor[1:].isdigit()) else r.ftor) for r in g.rules]
         g.note += '+backtrack'
     return g
 
